@@ -103,7 +103,7 @@ theorem C06_only_consulted (env : Env) (u1 u2 : Bytes) (opts : ParseOpts) (q1 q2
     intro k hk' b n; simp [reqUint, uint, hk k hk']
   have e4 : numWantOf q1.params = numWantOf q2.params := by simp [numWantOf, uint, hk kNumwant (by simp [consulted])]
   have e5 : ipOf env q1.params opts = ipOf env q2.params opts := by
-    simp [ipOf, requestedIP, hk kIP (by simp [consulted]), hk kIPv4 (by simp [consulted]), hk kIPv6 (by simp [consulted])]
+    simp [ipOf, requestedIP, spoofParam, hk kIP (by simp [consulted]), hk kIPv4 (by simp [consulted]), hk kIPv6 (by simp [consulted])]
   have e6 : compactOf q1.params = compactOf q2.params := by simp [compactOf, hk kCompact (by simp [consulted])]
   have e7 : (get q1.params kEvent).isSome = (get q2.params kEvent).isSome := by rw [hk kEvent (by simp [consulted])]
   unfold parseAnnounce
